@@ -1,9 +1,247 @@
--- C07: base fields — arithmetic equals integer arithmetic modulo the prime (property theorems)
-import Winter.Model.Field
+-- C07: base fields — arithmetic equals integer arithmetic modulo the prime (property theorems).
+--
+-- The model: `Gen.F64.*`, `Gen.F62.*`, `Gen.F128.*` are regenerated from
+-- math/src/field/{f64,f62,f128}/mod.rs on every run (translate/); `Model.F64.exp/inv`, conversions
+-- and byte encodings are hand-written (Winter/Model/Field.lean) and tied to the code by the
+-- correspondence harness.  A raw word `r` denotes the residue `val r`.
+import WinterProofs.Lemmas.C07F64Z
+import WinterProofs.Lemmas.C07Bytes
+import WinterProofs.Lemmas.Primes
 
 namespace WinterProofs.C07
-open Gen
+open Model
 
-theorem f64_consts_shape : F64.M = 2 ^ 64 - 2 ^ 32 + 1 ∧ F64.ELEMENT_BYTES = 8 := by decide
+/-! ## The 64-bit field, p = 2^64 - 2^32 + 1 (Montgomery form, raw words canonical: r < p) -/
+namespace F64
+open Gen.F64 WinterProofs.F64Z WinterProofs.Primes
+
+/-! ### published constants -/
+
+theorem modulus_eq : M = 2 ^ 64 - 2 ^ 32 + 1 := by decide
+
+theorem modulus_prime : Nat.Prime M := prime_M64
+
+/-- `R2` is `2^128 mod p`, `ELEMENT_BYTES` holds every canonical value -/
+theorem montgomery_constants : R2 = 2 ^ 128 % M ∧ ELEMENT_BYTES = 8 ∧ M < 256 ^ ELEMENT_BYTES ∧
+    MODULUS_BITS = 64 ∧ 2 ^ 63 < M ∧ M < 2 ^ 64 := by decide
+
+/-- two-adicity: `2^32` is the exact power of two dividing `p - 1` -/
+theorem two_adicity : 2 ^ TWO_ADICITY ∣ M - 1 ∧ ¬ 2 ^ (TWO_ADICITY + 1) ∣ M - 1 := by decide
+
+/-- the published generator generates the whole multiplicative group -/
+theorem generator_order : orderOf ((GENERATOR : Nat) : ZMod P) = P - 1 := by
+  apply order_of_lucas P GENERATOR (List.replicate 32 2 ++ [3, 5, 17, 257, 65537])
+  · norm_num
+  · norm_num
+  · intro q hq
+    simp only [List.mem_append, List.mem_replicate, List.mem_cons, List.not_mem_nil, or_false] at hq
+    rcases hq with ⟨-, rfl⟩ | rfl | rfl | rfl | rfl | rfl <;> norm_num
+  · decide +kernel
+  · decide +kernel
+  · decide +kernel
+
+/-- the published root of unity has order exactly `2^TWO_ADICITY` -/
+theorem root_of_unity_order :
+    orderOf ((TWO_ADIC_ROOT_OF_UNITY : Nat) : ZMod P) = 2 ^ TWO_ADICITY := by
+  apply order_two_pow P TWO_ADIC_ROOT_OF_UNITY 31
+  · norm_num
+  · decide +kernel
+  · decide +kernel
+
+/-! ### every public operation preserves the representation invariant and computes in `ZMod p` -/
+
+/-- `BaseElement::new` reduces silently: any 64-bit word, value `v mod p` -/
+theorem new_correct (v : Nat) (hv : v < 2 ^ 64) : Inv (new v) ∧ val (new v) = (v : ZMod P) :=
+  ⟨new_inv v hv, val_new v hv⟩
+
+theorem add_correct (a b : Nat) (ha : Inv a) (hb : Inv b) :
+    Inv (add a b) ∧ val (add a b) = val a + val b ∧ add_ok a b = true :=
+  ⟨add_inv a b ha hb, val_add a b ha hb, F64L.add_ok_spec a b hb⟩
+
+theorem sub_correct (a b : Nat) (ha : Inv a) (hb : Inv b) :
+    Inv (sub a b) ∧ val (sub a b) = val a - val b :=
+  ⟨sub_inv a b ha hb, val_sub a b ha hb⟩
+
+theorem mul_correct (a b : Nat) (ha : Inv a) (hb : Inv b) :
+    Inv (mul a b) ∧ val (mul a b) = val a * val b :=
+  ⟨mul_inv a b ha hb, val_mul a b ha hb⟩
+
+theorem neg_correct (a : Nat) (ha : Inv a) : Inv (neg a) ∧ val (neg a) = - val a :=
+  ⟨neg_inv a ha, val_neg a ha⟩
+
+theorem double_correct (a : Nat) (ha : Inv a) : Inv (double a) ∧ val (double a) = 2 * val a :=
+  ⟨double_inv a ha, val_double a ha⟩
+
+theorem square_correct (a : Nat) (ha : Inv a) : Inv (mul a a) ∧ val (mul a a) = val a ^ 2 := by
+  refine ⟨mul_inv a a ha ha, ?_⟩
+  rw [val_mul a a ha ha, pow_two]
+
+/-- `mul_small` (multiplication by a 32-bit integer without Montgomery reduction) -/
+theorem mul_small_correct (a k : Nat) (ha : Inv a) (hk : k < 2 ^ 32) :
+    Inv (mul_small a k) ∧ val (mul_small a k) = val a * (k : ZMod P) :=
+  ⟨mul_small_inv a k ha hk, val_mul_small a k ha hk⟩
+
+/-- exponentiation by any 64-bit exponent -/
+theorem exp_correct (a e : Nat) (ha : Inv a) (he : e < 2 ^ 64) :
+    Inv (Model.F64.exp a e) ∧ val (Model.F64.exp a e) = val a ^ e :=
+  exp_spec a e ha he
+
+/-- inversion; zero maps to zero (`0⁻¹ = 0` in `ZMod p`) -/
+theorem inv_correct (a : Nat) (ha : Inv a) :
+    Inv (Model.F64.inv a) ∧ val (Model.F64.inv a) = (val a)⁻¹ :=
+  ⟨(inv_pow a ha).1, val_inv a ha⟩
+
+theorem div_correct (a b : Nat) (ha : Inv a) (hb : Inv b) :
+    ∃ r, Model.F64.impl.div a b = .done r ∧ Inv r ∧ val r = val a / val b := by
+  refine ⟨mul a (Model.F64.inv b), rfl, mul_inv _ _ ha (inv_pow b hb).1, ?_⟩
+  rw [val_mul _ _ ha (inv_pow b hb).1, val_inv b hb, div_eq_mul_inv]
+
+/-- `as_int` is the canonical representative of the residue: `< p` and equal to `(val a).val` -/
+theorem as_int_correct (a : Nat) (ha : Inv a) : as_int a < M ∧ as_int a = (val a).val :=
+  ⟨as_int_lt a (lt_trans ha (by decide)), as_int_eq_val a (lt_trans ha (by decide))⟩
+
+/-- `==` holds exactly for equal residues (the representation is canonical) -/
+theorem eq_correct (a b : Nat) (ha : Inv a) (hb : Inv b) : eq a b = true ↔ val a = val b :=
+  eq_iff a b ha hb
+
+/-! ### conversions -/
+
+/-- `TryFrom<u64/u128>` rejects exactly the integers `≥ p` and otherwise denotes the integer -/
+theorem try_from_correct (n : Nat) :
+    (n ≥ M → Model.F64.impl.tryFrom n = .err) ∧
+    (n < M → Model.F64.impl.tryFrom n = .ok (new n) ∧ Inv (new n) ∧ val (new n) = (n : ZMod P)) := by
+  constructor
+  · intro h
+    show (if n ≥ M then Conv.err else Conv.ok (new n)) = Conv.err
+    rw [if_pos h]
+  · intro h
+    have hn64 : n < 2 ^ 64 := lt_trans h (by decide)
+    refine ⟨?_, new_inv n hn64, val_new n hn64⟩
+    show (if n ≥ M then Conv.err else Conv.ok (new n)) = Conv.ok (new n)
+    rw [if_neg (by omega)]
+
+/-- converting the canonical integer back gives the same raw word -/
+theorem new_as_int (a : Nat) (ha : Inv a) : new (as_int a) = a := by
+  have hlt := as_int_lt a (lt_trans ha (by decide))
+  have h64 : as_int a < 2 ^ 64 := lt_trans hlt (by decide)
+  apply val_injective (new_inv _ h64) ha
+  rw [val_new _ h64, as_int_val a (lt_trans ha (by decide))]
+
+/-- byte round trip: decoding what was encoded returns the same element and consumes exactly
+    the eight written bytes, whatever follows -/
+theorem bytes_roundtrip (a : Nat) (ha : Inv a) (rest : List Nat) :
+    Model.F64.impl.readFrom (Model.F64.impl.toBytes a ++ rest) = some (.ok a, rest) := by
+  have hlt := as_int_lt a (lt_trans ha (by decide))
+  have hlen : (leBytes 8 (as_int a)).length = 8 := Bytes.leBytes_length 8 _
+  show (if (leBytes 8 (as_int a) ++ rest).length < 8 then none
+    else some (FieldImpl.tryFrom Model.F64.impl (ofLeBytes ((leBytes 8 (as_int a) ++ rest).take 8)),
+      (leBytes 8 (as_int a) ++ rest).drop 8)) = some (.ok a, rest)
+  rw [if_neg (by rw [List.length_append, hlen]; omega)]
+  rw [List.take_left' hlen, List.drop_left' hlen,
+    Bytes.ofLeBytes_leBytes_of_lt 8 _ (lt_trans hlt (by decide))]
+  show some ((if as_int a ≥ M then Conv.err else Conv.ok (new (as_int a))), rest) = some (.ok a, rest)
+  rw [if_neg (by omega), new_as_int a ha]
+
+/-- two elements serialize identically exactly when they denote the same residue -/
+theorem to_bytes_eq_iff (a b : Nat) (ha : Inv a) (hb : Inv b) :
+    Model.F64.impl.toBytes a = Model.F64.impl.toBytes b ↔ val a = val b := by
+  have hla := as_int_lt a (lt_trans ha (by decide))
+  have hlb := as_int_lt b (lt_trans hb (by decide))
+  constructor
+  · intro h
+    have h' : as_int a = as_int b :=
+      Bytes.leBytes_inj 8 _ _ (lt_trans hla (by decide)) (lt_trans hlb (by decide)) h
+    rw [← as_int_val a (lt_trans ha (by decide)), ← as_int_val b (lt_trans hb (by decide)), h']
+  · intro h
+    have : a = b := val_injective ha hb h
+    rw [this]
+
+/-- `get_root_of_unity(n)`: defined for 1 ≤ n ≤ 32 with order exactly `2^n`; the documented
+    assertion failures (`none`) are exactly n = 0 and n > 32 -/
+theorem get_root_of_unity_correct (n : Nat) :
+    (n = 0 ∨ n > 32 → Model.F64.impl.rootOfUnity n = none) ∧
+    (1 ≤ n → n ≤ 32 → ∃ r, Model.F64.impl.rootOfUnity n = some r ∧ Inv r ∧ orderOf (val r) = 2 ^ n) := by
+  constructor
+  · intro h
+    show (if n = 0 ∨ n > 32 then none else some _) = none
+    rw [if_pos h]
+  · intro h1 h2
+    have hw := new_correct TWO_ADIC_ROOT_OF_UNITY (by decide)
+    have he : 2 ^ (32 - n) < 2 ^ 64 := Nat.pow_lt_pow_right (by norm_num) (by omega)
+    obtain ⟨hi, hv⟩ := exp_correct (new TWO_ADIC_ROOT_OF_UNITY) (2 ^ (32 - n)) hw.1 he
+    refine ⟨Model.F64.exp (new TWO_ADIC_ROOT_OF_UNITY) (2 ^ (32 - n)), ?_, hi, ?_⟩
+    · show (if n = 0 ∨ n > 32 then none else some _) = some _
+      rw [if_neg (by omega)]
+      rfl
+    · rw [hv, hw.2, orderOf_pow_of_dvd (by positivity), root_of_unity_order]
+      · show 2 ^ 32 / 2 ^ (32 - n) = 2 ^ n
+        rw [Nat.pow_div (by omega) (by norm_num)]
+        congr 1; omega
+      · rw [root_of_unity_order]
+        exact pow_dvd_pow 2 (by show 32 - n ≤ 32; omega)
+
+/-! ### the representation invariant over every sequence of public operations -/
+
+/-- the meaning of an operation sequence on residues -/
+def specStep (st : ZMod P × ZMod P) : FieldImpl.SeqOp → ZMod P × ZMod P
+  | .add => (st.1 + st.2, st.2)
+  | .sub => (st.1 - st.2, st.2)
+  | .mul => (st.1 * st.2, st.2)
+  | .neg => (-st.1, st.2)
+  | .dbl => (2 * st.1, st.2)
+  | .sq => (st.1 ^ 2, st.2)
+  | .swap => (st.2, st.1)
+  | .inv => (st.1⁻¹, st.2)
+  | .div => (st.1 / st.2, st.2)
+  | .mulSmall k => (st.1 * (k : ZMod P), st.2)
+
+def wfOp : FieldImpl.SeqOp → Prop
+  | .mulSmall k => k < 2 ^ 32
+  | _ => True
+
+theorem seq_step (acc y : Nat) (op : FieldImpl.SeqOp) (ha : Inv acc) (hy : Inv y) (hop : wfOp op) :
+    ∃ acc' y', Model.F64.impl.seqStep mul_small (some (acc, y)) op = some (acc', y') ∧
+      Inv acc' ∧ Inv y' ∧ (val acc', val y') = specStep (val acc, val y) op := by
+  cases op with
+  | add => exact ⟨add acc y, y, rfl, add_inv _ _ ha hy, hy, by rw [val_add _ _ ha hy]; rfl⟩
+  | sub => exact ⟨sub acc y, y, rfl, sub_inv _ _ ha hy, hy, by rw [val_sub _ _ ha hy]; rfl⟩
+  | mul => exact ⟨mul acc y, y, rfl, mul_inv _ _ ha hy, hy, by rw [val_mul _ _ ha hy]; rfl⟩
+  | neg => exact ⟨neg acc, y, rfl, neg_inv _ ha, hy, by rw [val_neg _ ha]; rfl⟩
+  | dbl => exact ⟨double acc, y, rfl, double_inv _ ha, hy, by rw [val_double _ ha]; rfl⟩
+  | sq => exact ⟨mul acc acc, y, rfl, mul_inv _ _ ha ha, hy, by rw [val_mul _ _ ha ha, ← pow_two]; rfl⟩
+  | swap => exact ⟨y, acc, rfl, hy, ha, rfl⟩
+  | inv => exact ⟨Model.F64.inv acc, y, rfl, (inv_pow _ ha).1, hy, by rw [val_inv _ ha]; rfl⟩
+  | div =>
+    refine ⟨mul acc (Model.F64.inv y), y, rfl, mul_inv _ _ ha (inv_pow y hy).1, hy, ?_⟩
+    rw [val_mul _ _ ha (inv_pow y hy).1, val_inv y hy, ← div_eq_mul_inv]; rfl
+  | mulSmall k =>
+    exact ⟨mul_small acc k, y, rfl, mul_small_inv _ _ ha hop, hy, by rw [val_mul_small _ _ ha hop]; rfl⟩
+
+/-- every state reachable from integers by public operations satisfies the representation
+    invariant and denotes the residues obtained by the same operations in `ZMod p`; in
+    particular `==` and serialization agree with residue equality in every reachable state -/
+theorem seq_invariant (a b : Nat) (ha : a < 2 ^ 64) (hb : b < 2 ^ 64) (ops : List FieldImpl.SeqOp)
+    (hops : ∀ op ∈ ops, wfOp op) :
+    ∃ acc y, Model.F64.impl.runSeq mul_small a b ops = some (acc, y) ∧ Inv acc ∧ Inv y ∧
+      (val acc, val y) = ops.foldl specStep ((a : ZMod P), (b : ZMod P)) := by
+  unfold FieldImpl.runSeq
+  have h0 : ∃ acc y, (some (Model.F64.impl.new a, Model.F64.impl.new b) : Option (Nat × Nat)) = some (acc, y) ∧
+      Inv acc ∧ Inv y ∧ (val acc, val y) = ((a : ZMod P), (b : ZMod P)) :=
+    ⟨new a, new b, rfl, new_inv a ha, new_inv b hb, by rw [val_new a ha, val_new b hb]⟩
+  generalize (some (Model.F64.impl.new a, Model.F64.impl.new b) : Option (Nat × Nat)) = st at h0
+  generalize (((a : ZMod P), (b : ZMod P)) : ZMod P × ZMod P) = sp at h0 ⊢
+  induction ops generalizing st sp with
+  | nil => simpa using h0
+  | cons op ops ih =>
+    obtain ⟨acc, y, rfl, hi1, hi2, hv⟩ := h0
+    obtain ⟨acc', y', hs, hj1, hj2, hv'⟩ := seq_step acc y op hi1 hi2 (hops op (by simp))
+    rw [List.foldl_cons, List.foldl_cons, hs]
+    apply ih (fun o ho => hops o (by simp [ho]))
+    exact ⟨acc', y', rfl, hj1, hj2, by rw [hv', hv]⟩
+
+/-- non-vacuity: a concrete raw word satisfies the invariant and is not trivial -/
+example : Inv (new 5) ∧ Inv (new (2 ^ 64 - 1)) := ⟨new_inv 5 (by norm_num), new_inv _ (by norm_num)⟩
+
+end F64
 
 end WinterProofs.C07
